@@ -6,7 +6,7 @@ package netpoll
 // symbolic inside one size class each (so a shape is one or two paths, not dozens); the
 // operation(s) that follow are fully symbolic. Class boundaries follow the code's own
 // thresholds: LinkBufferCap (4096), BinaryInplaceThreshold (4096), pagesize (8192).
-const verifShapeCount = 21
+const verifShapeCount = 22
 
 func verifShape(id int) *verifLB {
 	var v *verifLB
@@ -154,6 +154,14 @@ func verifShape(id int) *verifLB {
 		k := first - v.lastRemain + v.lastWD
 		v.rng(k, k)
 		v.opNext()
+	case 21: // three data nodes (a multi-node read has a middle node)
+		v = verifNewLB(0)
+		v.opMallocR(1, 4095)
+		v.opFlush()
+		v.opMallocR(4096, 8192)
+		v.opFlush()
+		v.opMallocR(4096, 8192)
+		v.opFlush()
 	}
 	return v
 }
@@ -168,9 +176,9 @@ func verifSizeIn(lo, hi int) int {
 // Bounded histories (DESIGN 5.1 mode B): a shape, then one arbitrary operation with
 // arbitrary arguments, then drain (flush, read everything back, compare with the reference).
 //
-//verif:bounds 21 shapes (<=7 fixed ops, sizes symbolic per size class) x 1 arbitrary op of 25 kinds + drain (Peek, Next, slice readers, parent Release); sizes <= 8 MB; Until over <=4 readable bytes; loop unrolling 10 per header
+//verif:bounds 22 shapes (<=7 fixed ops, sizes symbolic per size class) x 1 arbitrary op of 25 kinds + drain (Peek, Next, slice readers, parent Release); sizes <= 8 MB; Until over <=4 readable bytes; loop unrolling 10 per header
 //verif:also C02 C03
-//verif:param 0 524
+//verif:param 0 549
 //verif:loop 10
 func verifHarness_C01_hist1(param int) {
 	v := verifShape(param / verifOpCount)
@@ -183,10 +191,10 @@ func verifHarness_C01_hist1(param int) {
 
 // Two arbitrary operations after a shape (thorough tier).
 //
-//verif:bounds 21 shapes x 2 arbitrary ops (25 kinds each) + drain; sizes <= 8 MB; loop unrolling 10
+//verif:bounds 22 shapes x 2 arbitrary ops (25 kinds each) + drain; sizes <= 8 MB; loop unrolling 10
 //verif:also C02 C03
 //verif:tier thorough
-//verif:param 0 524
+//verif:param 0 549
 //verif:loop 10
 func verifHarness_C01_hist2(param int) {
 	v := verifShape(param / verifOpCount)
